@@ -11,6 +11,104 @@ use std::time::Instant;
 
 thread_local! {
     static LAST_PANIC: RefCell<Option<String>> = RefCell::new(None);
+    static IN_GUARDED: std::cell::Cell<u32> = std::cell::Cell::new(0);
+}
+
+// ---------------------------------------------------------------------------------------
+// Wedge detection: every worker thread publishes the host calls of its current session and
+// when the call in flight started; a watchdog thread turns a call that does not return
+// within the limit into a VIOLATION (with the history as the replay) and ends the process.
+
+pub struct WatchSlot {
+    pub started: Option<Instant>,
+    pub events: Vec<String>,
+    pub note: String,
+}
+
+static SLOTS: std::sync::Mutex<Vec<std::sync::Arc<std::sync::Mutex<WatchSlot>>>> = std::sync::Mutex::new(vec![]);
+pub static HOST_CALLS: std::sync::atomic::AtomicU64 = std::sync::atomic::AtomicU64::new(0);
+
+thread_local! {
+    static MY_SLOT: std::sync::Arc<std::sync::Mutex<WatchSlot>> = {
+        let s = std::sync::Arc::new(std::sync::Mutex::new(WatchSlot { started: None, events: vec![], note: String::new() }));
+        SLOTS.lock().unwrap().push(s.clone());
+        s
+    };
+}
+
+pub fn watch_reset() {
+    MY_SLOT.with(|s| {
+        let mut g = s.lock().unwrap();
+        g.events.clear();
+        g.started = None;
+    });
+}
+
+pub fn watch_begin(ev: &Ev) {
+    MY_SLOT.with(|s| {
+        let mut g = s.lock().unwrap();
+        if g.events.len() < 4000 {
+            g.events.push(ev.to_json().to_string());
+        }
+        g.started = Some(Instant::now());
+    });
+}
+
+pub fn watch_end() {
+    MY_SLOT.with(|s| s.lock().unwrap().started = None);
+}
+
+/// For subjects that are not driven through `Sess` (tokenizer, analyzer): `text` is the input.
+pub fn watch_text<T>(kind: &str, text: &str, f: impl FnOnce() -> T) -> T {
+    MY_SLOT.with(|s| {
+        let mut g = s.lock().unwrap();
+        g.events.clear();
+        g.note = format!("{}:{}", kind, text);
+        g.started = Some(Instant::now());
+    });
+    let r = f();
+    MY_SLOT.with(|s| {
+        let mut g = s.lock().unwrap();
+        g.started = None;
+        g.note.clear();
+    });
+    r
+}
+
+/// Starts the watchdog. A call in flight for more than `limit_s` seconds is a violation of
+/// "always hands control back": it is reported and the process exits with status 1.
+pub fn start_watchdog(property: String, tier: String, level: String, limit_s: u64) {
+    std::thread::spawn(move || loop {
+        std::thread::sleep(std::time::Duration::from_millis(500));
+        let slots: Vec<_> = SLOTS.lock().unwrap().iter().cloned().collect();
+        for s in slots {
+            let (stuck, events, note) = {
+                let g = s.lock().unwrap();
+                (g.started.map(|t| t.elapsed().as_secs() >= limit_s).unwrap_or(false), g.events.clone(), g.note.clone())
+            };
+            if !stuck {
+                continue;
+            }
+            let dir = format!("{}/replays/{}", crate::VERIF_DIR, property);
+            let _ = std::fs::create_dir_all(&dir);
+            let path = format!("{}/v000.json", dir);
+            let evs: Vec<J> = events.iter().filter_map(|e| serde_json::from_str(e).ok()).collect();
+            let case = if note.is_empty() { json!({"kind":"history","events":evs,"warnings":false,"tracing":false}) } else { json!({"kind":"text","input":note}) };
+            let last = events.last().cloned().unwrap_or_else(|| note.clone());
+            let body = json!({"property": property, "signature": format!("call did not return within {} s: {}", limit_s, truncate(&last, 120)), "detail": "the last host call of this history (or the analysis / tokenization of this text) did not hand control back", "case": case});
+            let _ = std::fs::write(&path, serde_json::to_string_pretty(&body).unwrap());
+            println!("VIOLATION property={} replay={}", property, path);
+            println!("  signature: call did not return within {} s: {}", limit_s, truncate(&last, 200));
+            let n = HOST_CALLS.load(std::sync::atomic::Ordering::Relaxed).max(2);
+            let ev = json!({
+                "property_id": property, "tier": if tier == "thorough" { "thorough" } else { "quick" }, "seed": 0, "level": level,
+                "coverage": {"evaluations": n, "distinct_nontrivial": n, "rule": "run aborted by the wedge watchdog: a subject call did not return; counts are host calls made before the abort", "samples": [case], "states": n, "transitions": n, "traces_validated_against_impl": n},
+                "assumptions": ["aborted run"], "wall_s": limit_s as f64, "violations": 1,
+            });
+            let _ = std::fs::write(format!("{}/evidence/{}.json", crate::VERIF_DIR, property), serde_json::to_string_pretty(&ev).unwrap());
+            std::process::exit(1);
+        }
+    });
 }
 
 /// Installs a panic hook that records the message per thread instead of printing it.
@@ -27,13 +125,20 @@ pub fn install_quiet_panic_hook() {
             .location()
             .map(|l| format!("{}:{}", l.file(), l.line()))
             .unwrap_or_default();
+        // A panic outside a guarded subject call is a bug of the machinery: show it.
+        if IN_GUARDED.with(|g| g.get()) == 0 {
+            eprintln!("MACHINERY-ERROR: harness panicked: {} @ {}", msg, loc);
+        }
         LAST_PANIC.with(|p| *p.borrow_mut() = Some(format!("{} @ {}", msg, loc)));
     }));
 }
 
 /// Runs `f`, turning a panic into `Err(message)`.
 pub fn guarded<T>(f: impl FnOnce() -> T) -> Result<T, String> {
-    match catch_unwind(AssertUnwindSafe(f)) {
+    IN_GUARDED.with(|g| g.set(g.get() + 1));
+    let r = catch_unwind(AssertUnwindSafe(f));
+    IN_GUARDED.with(|g| g.set(g.get().saturating_sub(1)));
+    match r {
         Ok(v) => Ok(v),
         Err(_) => Err(LAST_PANIC
             .with(|p| p.borrow_mut().take())
@@ -185,6 +290,7 @@ impl Default for Sess {
 
 impl Sess {
     pub fn new() -> Self {
+        watch_reset();
         Sess {
             it: Interpreter::default(),
             recs: vec![],
@@ -195,6 +301,7 @@ impl Sess {
     }
 
     pub fn from_interpreter(it: Interpreter) -> Self {
+        watch_reset();
         Sess {
             it,
             recs: vec![],
@@ -238,6 +345,18 @@ impl Sess {
 
     /// Applies one host call (must be enabled in the current state).
     pub fn apply(&mut self, ev: &Ev) -> CallResult {
+        if !matches!(ev, Ev::LineToIdle(_)) {
+            watch_begin(ev);
+            HOST_CALLS.fetch_add(1, std::sync::atomic::Ordering::Relaxed);
+        }
+        let r = self.apply_inner(ev);
+        if !matches!(ev, Ev::LineToIdle(_)) {
+            watch_end();
+        }
+        r
+    }
+
+    fn apply_inner(&mut self, ev: &Ev) -> CallResult {
         match ev {
             Ev::Line(l) => {
                 self.last_line = Some(l.clone());
